@@ -45,7 +45,7 @@ Qed.
 (* two different symbols, one printed text *)
 Theorem disambiguation_refuted : exists env d1 d2,
   In d1 env /\ In d2 env /\ d1 <> d2 /\ legal_symbol (sd_name d1) /\
-  print_term faithful env (TApp d1 []) = print_term faithful env (TApp d2 []).
+  print_term pinned env (TApp d1 []) = print_term pinned env (TApp d2 []).
 Proof.
   exists [usym "a b" [] U; usym "a b" [] B], (usym "a b" [] U), (usym "a b" [] B).
   repeat split; try (simpl; auto; fail); try discriminate; vm_compute; reflexivity.
@@ -76,8 +76,8 @@ Definition params_fresh (user : list symdecl) (df : definition) : Prop :=
    passes the clash resolver unchanged *)
 Theorem formal_arg_fresh_refuted : exists user d,
   In d user /\
-  let df := default_definition faithful d in
-  resolve_one faithful user d df 0 = Some (df, 0) /\ ~ params_fresh user df.
+  let df := default_definition pinned d in
+  resolve_clashes pinned user [(d, df)] = Some [df] /\ ~ params_fresh user df.
 Proof.
   exists [usym "x0" [] B; usym "f" [U] U], (usym "f" [U] U).
   split; [simpl; auto|]. split; [vm_compute; reflexivity|].
@@ -87,59 +87,86 @@ Qed.
 (* the same through ModelBuilder (a function the solver has a valuation for) *)
 Theorem formal_arg_fresh_refuted_builder : exists user d,
   In d user /\
-  let df := fst (builder_definition faithful d 0) in
-  resolve_one faithful user d df 0 = Some (df, 0) /\ ~ params_fresh user df.
+  let df := fst (builder_definition pinned d 0) in
+  resolve_clashes pinned user [(d, df)] = Some [df] /\ ~ params_fresh user df.
 Proof.
   exists [usym "x0" [] B; usym "f" [U] U], (usym "f" [U] U).
   split; [simpl; auto|]. split; [vm_compute; reflexivity|].
   intros H. apply (H ("x0", U)); vm_compute; auto.
 Qed.
 
-Lemma clashes_repaired : forall user p, clashes repaired user p = false -> ~ In (fst p) (user_names user).
+Lemma clashes_repaired : forall user allp p, clashes repaired user allp p = false -> ~ In (fst p) (user_names user).
 Proof.
-  intros user p H Hin. unfold clashes in H. cbn [v_formal_by_term repaired] in H.
+  intros user allp p H Hin. unfold clashes in H. cbn [v_formal_by_term repaired] in H.
+  apply orb_false_iff in H as [H _].
   unfold user_names in Hin. apply in_map_iff in Hin as [u [E Hu]].
   assert (existsb (fun u0 => String.eqb (sd_name u0) (fst p)) user = true).
   { apply existsb_exists. exists u. split; [assumption|]. rewrite E. apply String.eqb_refl. }
   congruence.
 Qed.
 
-Lemma fresh_param_fresh : forall user prefix s fuel num name num',
-  fresh_param repaired user prefix s num fuel = Some (name, num') -> ~ In name (user_names user).
+Lemma fresh_param_fresh : forall user avoid prefix s fuel num name num',
+  fresh_param repaired user avoid prefix s num fuel = Some (name, num') -> ~ In name avoid.
 Proof.
   induction fuel; intros num name num' H; [discriminate|]. cbn [fresh_param] in H.
-  destruct (clashes repaired user (prefix ++ dec num, s)) eqn:E.
+  destruct (taken repaired user avoid (prefix ++ dec num) s) eqn:E.
   - eapply IHfuel; eassumption.
-  - inversion H; subst. exact (clashes_repaired user _ E).
+  - inversion H; subst. unfold taken in E. cbn [v_formal_by_term repaired] in E.
+    apply mem_str_In_false. exact E.
 Qed.
 
-Lemma rename_params_fresh : forall user prefix ps num l n2,
-  rename_params repaired user prefix ps num = Some (l, n2) ->
-  forall p, In p l -> ~ In (fst p) (user_names user).
+Lemma rename_params_fresh : forall user prefix ps avoid num l n2 av2,
+  rename_params repaired user avoid prefix ps num = Some (l, n2, av2) ->
+  (forall p, In p l -> ~ In (fst p) avoid) /\ incl avoid av2.
 Proof.
-  induction ps as [|[x s] r IH]; intros num l n2 H p Hp.
-  - inversion H; subst. destruct Hp.
+  induction ps as [|[x s] r IH]; intros avoid num l n2 av2 H.
+  - inversion H; subst. split; [intros p []|apply incl_refl].
   - cbn [rename_params] in H.
-    destruct (fresh_param repaired user prefix s num (S (List.length user))) as [[name num']|] eqn:E; [|discriminate].
-    destruct (rename_params repaired user prefix r num') as [[l' n3]|] eqn:E2; [|discriminate].
-    inversion H; subst. destruct Hp as [Hp|Hp].
-    + subst p. simpl. eapply fresh_param_fresh; eassumption.
-    + eapply IH; eassumption.
+    destruct (fresh_param repaired user avoid prefix s num (S (List.length user + List.length avoid))) as [[name num']|] eqn:E; [|discriminate].
+    destruct (rename_params repaired user (name :: avoid) prefix r num') as [[[l' n3] av3]|] eqn:E2; [|discriminate].
+    inversion H; subst. destruct (IH _ _ _ _ _ E2) as [F I]. split.
+    + intros p [Hp|Hp].
+      * subst p. simpl. eapply fresh_param_fresh; eassumption.
+      * intros Hin. apply (F p Hp). right. exact Hin.
+    + intros y Hy. apply I. right. exact Hy.
 Qed.
 
-Theorem formal_arg_fresh_repaired : forall user d df num df' num',
-  resolve_one repaired user d df num = Some (df', num') -> params_fresh user df'.
+Lemma resolve_one_fresh : forall user allp avoid d df num df' num' av',
+  incl (user_names user) avoid ->
+  resolve_one repaired user allp avoid d df num = Some (df', num', av') ->
+  params_fresh user df' /\ incl avoid av'.
 Proof.
-  intros user d df num df' num' H. unfold resolve_one in H.
-  destruct (existsb (clashes repaired user) (df_params df)) eqn:E.
-  - destruct (rename_params repaired user (safe_prefix (sd_name d)) (df_params df) num) as [[ps n2]|] eqn:E2; [|discriminate].
-    inversion H; subst. intros p Hp. simpl in Hp. eapply rename_params_fresh; eassumption.
-  - inversion H; subst. intros p Hp.
-    apply clashes_repaired. destruct (clashes repaired user p) eqn:C; [|reflexivity].
-    assert (existsb (clashes repaired user) (df_params df') = true) by (apply existsb_exists; eauto). congruence.
+  intros user allp avoid d df num df' num' av' Hinc H. unfold resolve_one in H.
+  destruct (existsb (clashes repaired user allp) (df_params df)) eqn:E.
+  - destruct (rename_params repaired user avoid (safe_prefix (sd_name d)) (df_params df) num) as [[[ps n2] av2]|] eqn:E2; [|discriminate].
+    inversion H; subst. destruct (rename_params_fresh _ _ _ _ _ _ _ _ E2) as [F I]. split; [|exact I].
+    intros p Hp Hin. simpl in Hp. apply (F p Hp). apply Hinc. exact Hin.
+  - inversion H; subst. split; [|apply incl_refl]. intros p Hp.
+    apply (clashes_repaired user allp). destruct (clashes repaired user allp p) eqn:C; [|reflexivity].
+    assert (existsb (clashes repaired user allp) (df_params df') = true) by (apply existsb_exists; eauto). congruence.
 Qed.
 
-(* the loop always finds a name: among length user + 1 consecutive candidates one is not a user name *)
+Lemma resolve_loop_fresh : forall user allp fs avoid num l,
+  incl (user_names user) avoid ->
+  resolve_loop repaired user allp avoid fs num = Some l -> Forall (params_fresh user) l.
+Proof.
+  induction fs as [|[d df] r IH]; intros avoid num l Hinc H.
+  - inversion H. constructor.
+  - cbn [resolve_loop] in H.
+    destruct (resolve_one repaired user allp avoid d df num) as [[[df' num'] av']|] eqn:E; [|discriminate].
+    destruct (resolve_loop repaired user allp av' r num') eqn:E2; [|discriminate].
+    inversion H; subst. destruct (resolve_one_fresh _ _ _ _ _ _ _ _ _ Hinc E) as [F I]. constructor; [exact F|].
+    eapply IH; [|eassumption]. intros y Hy. apply I. apply Hinc. exact Hy.
+Qed.
+
+Theorem resolve_repaired_fresh : forall user fs l,
+  resolve_clashes repaired user fs = Some l -> Forall (params_fresh user) l.
+Proof.
+  intros user fs l H. unfold resolve_clashes in H. eapply resolve_loop_fresh; [|eassumption].
+  intros y Hy. apply in_or_app. left. exact Hy.
+Qed.
+
+(* the loop always finds a name: among length avoid + 1 consecutive candidates one is not known to the logic *)
 Lemma to_uint_nonnil : forall n, Nat.to_uint n <> Nil.
 Proof.
   intros n. pose proof (Unsigned.to_of (Nat.to_uint n)) as H. rewrite Unsigned.of_to in H.
@@ -178,66 +205,53 @@ Qed.
 Lemma candidates_length : forall prefix n num, List.length (candidates prefix num n) = n.
 Proof. induction n; intros; simpl; [reflexivity|]. rewrite IHn. reflexivity. Qed.
 
-(* if the first n candidates all clash, they are n distinct user names *)
-Lemma fresh_param_none : forall user prefix s fuel num,
-  fresh_param repaired user prefix s num fuel = None -> incl (candidates prefix num fuel) (user_names user).
+Lemma fresh_param_none : forall user avoid prefix s fuel num,
+  fresh_param repaired user avoid prefix s num fuel = None -> incl (candidates prefix num fuel) avoid.
 Proof.
   induction fuel; intros num H; [intros x []|]. cbn [fresh_param] in H.
-  destruct (clashes repaired user (prefix ++ dec num, s)) eqn:E; [|discriminate].
+  destruct (taken repaired user avoid (prefix ++ dec num) s) eqn:E; [|discriminate].
   intros x [Hx|Hx].
-  - subst x. unfold clashes in E. cbn [v_formal_by_term repaired] in E.
-    apply existsb_exists in E as [u [Hu Eu]]. apply String.eqb_eq in Eu. simpl in Eu.
-    unfold user_names. apply in_map_iff. exists u. auto.
+  - subst x. unfold taken in E. cbn [v_formal_by_term repaired] in E. apply mem_str_In. exact E.
   - exact (IHfuel (S num) H x Hx).
 Qed.
 
-Lemma fresh_param_total : forall user prefix s num,
-  fresh_param repaired user prefix s num (S (List.length user)) <> None.
+Lemma fresh_param_total : forall user avoid prefix s num,
+  fresh_param repaired user avoid prefix s num (S (List.length user + List.length avoid)) <> None.
 Proof.
-  intros user prefix s num H. apply fresh_param_none in H.
-  pose proof (NoDup_incl_length (candidates_NoDup prefix (S (List.length user)) num) H) as L.
-  rewrite candidates_length in L. unfold user_names in L. rewrite map_length in L. lia.
+  intros user avoid prefix s num H. apply fresh_param_none in H.
+  pose proof (NoDup_incl_length (candidates_NoDup prefix (S (List.length user + List.length avoid)) num) H) as L.
+  rewrite candidates_length in L. lia.
 Qed.
 
-Lemma rename_params_total : forall user prefix ps num, rename_params repaired user prefix ps num <> None.
+Lemma rename_params_total : forall user prefix ps avoid num, rename_params repaired user avoid prefix ps num <> None.
 Proof.
-  induction ps as [|[x s] r IH]; intros num; [discriminate|]. cbn [rename_params].
-  destruct (fresh_param repaired user prefix s num (S (List.length user))) as [[name num']|] eqn:E.
-  - destruct (rename_params repaired user prefix r num') as [[l n2]|] eqn:E2; [discriminate|].
-    exfalso. exact (IH num' E2).
-  - exfalso. exact (fresh_param_total user prefix s num E).
+  induction ps as [|[x s] r IH]; intros avoid num; [discriminate|]. cbn [rename_params].
+  destruct (fresh_param repaired user avoid prefix s num (S (List.length user + List.length avoid))) as [[name num']|] eqn:E.
+  - destruct (rename_params repaired user (name :: avoid) prefix r num') as [[[l n2] av2]|] eqn:E2; [discriminate|].
+    exfalso. exact (IH _ num' E2).
+  - exfalso. exact (fresh_param_total user avoid prefix s num E).
 Qed.
 
-Theorem resolve_repaired_total : forall user fs num, resolve_clashes repaired user fs num <> None.
+Lemma resolve_loop_total : forall user allp fs avoid num, resolve_loop repaired user allp avoid fs num <> None.
 Proof.
-  induction fs as [|[d df] r IH]; intros num; [discriminate|]. cbn [resolve_clashes].
-  destruct (resolve_one repaired user d df num) as [[df' num']|] eqn:E.
-  - destruct (resolve_clashes repaired user r num') eqn:E2; [discriminate|]. exfalso. exact (IH num' E2).
+  induction fs as [|[d df] r IH]; intros avoid num; [discriminate|]. cbn [resolve_loop].
+  destruct (resolve_one repaired user allp avoid d df num) as [[[df' num'] av']|] eqn:E.
+  - destruct (resolve_loop repaired user allp av' r num') eqn:E2; [discriminate|]. exfalso. exact (IH _ num' E2).
   - exfalso. unfold resolve_one in E.
-    destruct (existsb (clashes repaired user) (df_params df)); [|discriminate].
-    destruct (rename_params repaired user (safe_prefix (sd_name d)) (df_params df) num) as [[ps n2]|] eqn:E3; [discriminate|].
-    exact (rename_params_total _ _ _ _ E3).
+    destruct (existsb (clashes repaired user allp) (df_params df)); [|discriminate].
+    destruct (rename_params repaired user avoid (safe_prefix (sd_name d)) (df_params df) num) as [[[ps n2] av2]|] eqn:E3; [discriminate|].
+    exact (rename_params_total _ _ _ _ _ E3).
 Qed.
 
-Theorem resolve_repaired_fresh : forall user fs num l,
-  resolve_clashes repaired user fs num = Some l -> Forall (params_fresh user) l.
-Proof.
-  induction fs as [|[d df] r IH]; intros num l H.
-  - inversion H. constructor.
-  - cbn [resolve_clashes] in H.
-    destruct (resolve_one repaired user d df num) as [[df' num']|] eqn:E; [|discriminate].
-    destruct (resolve_clashes repaired user r num') eqn:E2; [|discriminate].
-    inversion H; subst. constructor.
-    + eapply formal_arg_fresh_repaired; eassumption.
-    + eapply IH; eassumption.
-Qed.
+Theorem resolve_repaired_total : forall user fs, resolve_clashes repaired user fs <> None.
+Proof. intros user fs. unfold resolve_clashes. apply resolve_loop_total. Qed.
 
 (* ---------------------------------------------------------------------------------------------
    C. sites whose faithful output does not read back *)
 
 (* get-assignment with no named term: a lone closing parenthesis *)
 Theorem assignment_empty_refuted :
-  assignment_text faithful [] = FmtOut ")" /\ read_sexps std_cfg ")" = None.
+  assignment_text pinned [] = FmtOut ")" /\ read_sexps std_cfg ")" = None.
 Proof. split; vm_compute; reflexivity. Qed.
 
 Theorem assignment_empty_repaired :
@@ -246,9 +260,9 @@ Proof. split; vm_compute; reflexivity. Qed.
 
 (* get-assignment: names are printed raw and the text is used as a printf format *)
 Theorem assignment_names_refuted :
-  (exists t, assignment_text faithful [("a b", "true")] = FmtOut t /\ ~ reads_as std_cfg t (SList [SList [sym_tok "a b"; sym_tok "true"]]))
-  /\ (exists t, assignment_text faithful [("a%sb", "true")] = FmtUB t)
-  /\ (exists t, assignment_text faithful [("50%x", "true")] = FmtOut t /\ ~ reads_as std_cfg t (SList [SList [sym_tok "50%x"; sym_tok "true"]])).
+  (exists t, assignment_text pinned [("a b", "true")] = FmtOut t /\ ~ reads_as std_cfg t (SList [SList [sym_tok "a b"; sym_tok "true"]]))
+  /\ (exists t, assignment_text pinned [("a%sb", "true")] = FmtUB t)
+  /\ (exists t, assignment_text pinned [("50%x", "true")] = FmtOut t /\ ~ reads_as std_cfg t (SList [SList [sym_tok "50%x"; sym_tok "true"]])).
 Proof.
   split; [|split].
   - eexists. split; [vm_compute; reflexivity|]. vm_compute. discriminate.
@@ -267,11 +281,11 @@ Definition echo_ok (cfg : lexcfg) (v : variant) (a : ast) : Prop :=
   snd (echo v a) = false /\ reads_as cfg (fst (echo v a)) (ast_sexp a).
 
 Theorem echo_roundtrip_refuted :
-  ~ echo_ok std_cfg faithful (A_app (H_sym "f") [A_sym "a b"])
-  /\ ~ echo_ok osmt_cfg faithful (A_app (H_sym "f") [A_sym "a b"])
-  /\ ~ echo_ok std_cfg faithful (A_sym "let")
-  /\ ~ echo_ok std_cfg faithful (A_bang (A_sym "p") "n")
-  /\ snd (echo faithful (A_app (H_sym "f") [A_as "c" U])) = true.
+  ~ echo_ok std_cfg pinned (A_app (H_sym "f") [A_sym "a b"])
+  /\ ~ echo_ok osmt_cfg pinned (A_app (H_sym "f") [A_sym "a b"])
+  /\ ~ echo_ok std_cfg pinned (A_sym "let")
+  /\ ~ echo_ok std_cfg pinned (A_bang (A_sym "p") "n")
+  /\ snd (echo pinned (A_app (H_sym "f") [A_as "c" U])) = true.
 Proof.
   split; [|split; [|split; [|split]]].
   - intros [H1 H2]; vm_compute in H2; discriminate.
@@ -290,7 +304,7 @@ Proof. repeat split; vm_compute; reflexivity. Qed.
 
 (* get-unsat-core names, sort names, the name of a default definition *)
 Theorem core_names_refuted :
-  ~ reads_as std_cfg (core_names_text faithful ["n 1"; "let"]) (SList [sym_tok "n 1"; sym_tok "let"]).
+  ~ reads_as std_cfg (core_names_text pinned ["n 1"; "let"]) (SList [sym_tok "n 1"; sym_tok "let"]).
 Proof. vm_compute. discriminate. Qed.
 
 Theorem core_names_repaired_example :
@@ -298,7 +312,7 @@ Theorem core_names_repaired_example :
 Proof. vm_compute. reflexivity. Qed.
 
 Theorem sort_name_refuted :
-  ~ reads_as std_cfg (sortToString faithful (Sort "S T" [])) (sort_sexp (Sort "S T" [])).
+  ~ reads_as std_cfg (sortToString pinned (Sort "S T" [])) (sort_sexp (Sort "S T" [])).
 Proof. vm_compute. discriminate. Qed.
 
 Theorem sort_name_repaired : forall n, legal_symbol n ->
@@ -306,7 +320,7 @@ Theorem sort_name_repaired : forall n, legal_symbol n ->
 Proof. intros n H. cbn [sortToString v_sort_raw repaired]. apply protect_repaired_roundtrip_std. exact H. Qed.
 
 Theorem default_definition_name_refuted :
-  read_symbol std_cfg (df_name (default_definition faithful (usym "unused fn" [U] U))) <> Some "unused fn".
+  read_symbol std_cfg (df_name (default_definition pinned (usym "unused fn" [U] U))) <> Some "unused fn".
 Proof. vm_compute. discriminate. Qed.
 
 Theorem default_definition_name_repaired : forall d, legal_symbol (sd_name d) -> sd_interp d = false ->
